@@ -17,6 +17,11 @@
 (*   {"e":"ObsRet","o":id,"tags":[5 tags],"en":bool,"fl":bool,"pan":bool,  *)
 (*    "fa":0|1|2}   fl = what flush returned, fa = what the tagged emitter *)
 (*                  answered (0 not asked, 1 false, 2 true)                *)
+(*   {"e":"HCall","i":tag,"op":"h_probe|h_flush|h_guard_drop","tmo":..}    *)
+(*   {"e":"HRet","i":tag,"tags":[5 tags],"fl":bool,"fa":0|1|2,"nfl":k,     *)
+(*    "pan":bool}  an operation of a successful initialiser through its    *)
+(*                 Init handle; nfl = times the tagged emitter was asked   *)
+(*                 to flush during it                                      *)
 (*   {"e":"Tally","used":[invocations of the components tagged 1..]}       *)
 (*   {"e":"Hang","t":thread,"in":call}  a call that never returned: no     *)
 (*                  action matches it, the round is rejected               *)
@@ -35,7 +40,7 @@ Rec == ndJsonDeserialize(IOEnv.TRACE)
 VARIABLES l,       \* next event to match
           target   \* the kind of slot of the current round
 
-tvars == <<vars, l, target>>
+tvars == <<vars, hvars, l, target>>
 
 IsEv(name) == l <= Len(Rec) /\ Rec[l].e = name
 Ev == Rec[l]
@@ -60,6 +65,8 @@ TReset ==
     /\ omust' = [o \in Observers |-> FALSE]
     /\ seenEnabled' = FALSE
     /\ obsLog' = {}
+    /\ \A i \in Inits : hnd[i].pc = "idle"
+    /\ hnd' = [i \in Inits |-> NoHandle] /\ hLog' = {}
     /\ target' = Ev.slot
     /\ l' = l + 1
 
@@ -67,7 +74,7 @@ TInitCall ==
     /\ IsEv("InitCall") /\ Ev.i \in Inits
     /\ Ev.k \in KindsFor(target)
     /\ InitCall(Ev.i, Ev.k)
-    /\ l' = l + 1 /\ UNCHANGED target
+    /\ l' = l + 1 /\ UNCHANGED <<target, hvars>>
 
 \* the result is the one the specification determines; a successful initialiser is handed
 \* references to its own components
@@ -75,11 +82,11 @@ TInitRet ==
     /\ IsEv("InitRet") /\ Ev.i \in Inits
     /\ InitRet(Ev.i, Ev.r)
     /\ Success(Ev.r) => Ev.own
-    /\ l' = l + 1 /\ UNCHANGED target
+    /\ l' = l + 1 /\ UNCHANGED <<target, hvars>>
 
 TObsCall ==
     /\ IsEv("ObsCall") /\ Ev.o \in Observers /\ ObsCall(Ev.o, Ev.op)
-    /\ l' = l + 1 /\ UNCHANGED target
+    /\ l' = l + 1 /\ UNCHANGED <<target, hvars>>
 
 \* the observation is the one the read determines: the same tag in every component the
 \* operation exercises, is_enabled accordingly, never a panic; flush returns true on the empty
@@ -95,20 +102,41 @@ TObsRet ==
           /\ (res.op = "flush" /\ ~res.en) => Ev.fl /\ Ev.fa = 0
           /\ (res.op = "flush" /\ res.en) => Ev.fa # 0 /\ (Ev.fl <=> Ev.fa = 2)
           /\ ObsRet(Ev.o, res)
-    /\ l' = l + 1 /\ UNCHANGED target
+    /\ l' = l + 1 /\ UNCHANGED <<target, hvars>>
 
 \* end of a round: only the installed configuration's components were ever invoked
 TTally ==
     /\ IsEv("Tally")
     /\ \A i \in Inits : Ev.used[i] > 0 => slot = i
-    /\ UNCHANGED <<vars, target>>
+    /\ UNCHANGED <<vars, target, hvars>>
     /\ l' = l + 1
 
+\* operations through the Init handle: no internal step, the handle is the caller's own
+THCall ==
+    /\ IsEv("HCall") /\ Ev.i \in Inits
+    /\ HandleCall(Ev.i, Ev.op)
+    /\ l' = l + 1 /\ UNCHANGED target
+
+\* every component reached is the caller's own (and by HandleIsInstalled the installed
+\* one); a flush returns what that emitter answered and asks it exactly once
+THRet ==
+    /\ IsEv("HRet") /\ Ev.i \in Inits
+    /\ hnd[Ev.i].pc = "called"
+    /\ ~Ev.pan
+    /\ LET res == HResultOf(Ev.i)
+       IN /\ \A k \in 1..NComp : Ev.tags[k] = res.tags[k]
+          /\ Ev.nfl = res.flushes
+          /\ res.op = "h_flush" => Ev.fa # 0 /\ (Ev.fl <=> Ev.fa = 2)
+          /\ res.op = "h_guard_drop" => Ev.fa # 0
+          /\ HandleRet(Ev.i, res)
+    /\ l' = l + 1 /\ UNCHANGED target
+
 \* internal steps
-TTrySet == \E i \in Inits : TrySet(i) /\ UNCHANGED <<l, target>>
-TRead == \E o \in Observers : Read(o) /\ UNCHANGED <<l, target>>
+TTrySet == \E i \in Inits : TrySet(i) /\ UNCHANGED <<l, target, hvars>>
+TRead == \E o \in Observers : Read(o) /\ UNCHANGED <<l, target, hvars>>
 
 TNext == TReset \/ TInitCall \/ TInitRet \/ TObsCall \/ TObsRet \/ TTally \/ TTrySet \/ TRead
+         \/ THCall \/ THRet
 
 TSpec == TInit /\ [][TNext]_tvars
 
